@@ -55,7 +55,9 @@ inductive In where
   | pap (m sid : Nat) (pw : Pw) (r : Radius)
   | ipcp (m sid : Nat) (k : IpcpKind)
   | ip (m sid : Nat)
-  | sweep
+  /-- one pass of the idle sweep; `keep` = the sessions that are NOT idle past the timeout (which ones those are
+      is decided by the clock: see the timed layer in `Bng.Drv.PppoeServer`) -/
+  | sweep (keep : List Nat)
   deriving Repr, DecidableEq
 
 inductive Out where
@@ -163,7 +165,7 @@ def step (s : Srv) : In → Srv × List Out
         | .creqNone => (s, [.ipcpack sid x.mac])
         | .cack => (setSess s sid { x with state := .est }, [])
   | .ip _ _ => (s, [])
-  | .sweep => ({ s with sessions := [] }, [])
+  | .sweep keep => ({ s with sessions := s.sessions.filter (fun p => keep.contains p.1) }, [])
 
 def run (s : Srv) (ins : List In) : Srv := ins.foldl (fun st i => (step st i).1) s
 
